@@ -7,5 +7,5 @@ CONSTANTS
   MaxLen = 0
   Alpha = {}
   QAlpha = {}
-INVARIANTS ParseNoPanic ParseTagNoPanic ParseTruncated ParseRejects ParseAccepts ParseTree ParseTagType ParseRange ParseTagDoc PrintTotal PrintDecided PrintFaithful PrintBack
+INVARIANTS ParseNoPanic ParseTagNoPanic ParseTruncated ParseRejects ParseAccepts ParseTree ParseTagType ParseRange ParseTagDoc PrintTotal PrintRound PrintDecided PrintFaithful PrintBack
 CHECK_DEADLOCK FALSE
